@@ -9,6 +9,7 @@ and the post-processing) is not modelled.
 """
 from __future__ import annotations
 
+import json
 from typing import Any
 
 from ..common import Ctx
@@ -99,6 +100,59 @@ def infer_or_part(ctx: Ctx, quick: bool) -> None:
                 ctx.violation("correspondence: infer_or_gate_from_node / get_extended_or_gates_from_process_tree and the "
                               "Lean model rewrite the raw tree differently",
                               {"input": inp, "impl": got, "model": lr}, key=("corrior", sets, tree), concrete=False)
+
+
+def post_part(ctx: Ctx, items: list[dict[str, Any]], seeds: list[int]) -> None:
+    """the repository's own part of calculate_logic_gates on the REAL raw trees of the domain: what
+    reduce_process_tree_to_preferred_logic_gates + calculate_repeats_in_tree return must be an outcome of the Lean
+    model (inferOrAll, filterDefunct, missingAnd under every cover choice) applied to the miner's raw tree"""
+    B = 40
+    reqs = [{"op": "gates_raw", "families": [it["family"] for it in items[i:i + B]], "hash_seed": hs,
+             "uuid_seed": ctx.seed + i, "timeout": 300, "base": i}
+            for hs in seeds[:2] for i in range(0, len(items), B)]
+    reps = pvlib.run_requests(reqs)
+    lreqs, lmeta = [], []
+    for rq, rp in zip(reqs, reps):
+        if "error" in rp:
+            ctx.broken_ties.append(f"gates_raw worker failed: {rp['error'][:120]}")
+            continue
+        for k, res in enumerate(rp["results"]):
+            it = items[rq["base"] + k]
+            if "error" in res:
+                continue    # reported by the main part
+            lreqs.append({"op": "gate.post", "sets": it["family"], "raw": res["raw"], "src": it["tree"]})
+            lmeta.append((it, res, rq["hash_seed"]))
+    lres = pvlib.lean(lreqs, timeout=3600) if lreqs else []
+    for (it, res, hs), lr in zip(lmeta, lres):
+        ctx.tick("post_raw_trees")
+        if "error" in lr:
+            ctx.broken_ties.append(f"model driver: {lr['error']}")
+            continue
+        def canon(t: Any) -> Any:
+            # the cover is a Python set of frozensets: the order of the rebuilt children is arbitrary, and AND/OR/XOR
+            # are commutative — compare up to the order of children
+            if isinstance(t, list):
+                return [t[0]] + sorted((canon(c) for c in t[1:]), key=json.dumps)
+            return t
+        # every outcome of the model — every choice max() could have made, whatever the hash seed — must satisfy the
+        # property too: soundness always, exactness on the sub-class
+        ctx.tick("post_model_outcomes", len(lr["outcomes"]))
+        for o, vd in zip(lr["outcomes"], lr.get("verdicts", [])):
+            if "error" in vd:
+                continue
+            if not vd["sound"] or (it["subclass"] and not vd["exact"]):
+                ctx.violation(f"another choice of max() in get_weighted_cover gives {o}, which "
+                              f"{'does not admit every observed set' if not vd['sound'] else 'admits more than the source'} "
+                              f"of {it['tree']} (raw miner tree {res['raw']})",
+                              {"input": {"tree": it["tree"], "family": it["family"], "hash_seed": hs}, "raw": res["raw"],
+                               "outcome": o}, key=("postchoice", it["tree"]))
+                break
+        if canon(res["final"]) not in [canon(o) for o in lr["outcomes"]]:
+            ctx.violation("correspondence: the post-processing of the real raw miner tree is not an outcome of the Lean "
+                          "model (inferOrAll, filterDefunct, missingAnd)",
+                          {"input": {"tree": it["tree"], "family": it["family"], "hash_seed": hs}, "raw": res["raw"],
+                           "impl": res["final"], "model": lr["outcomes"][:4]},
+                          key=("corrpost", it["tree"], hs), concrete=False)
 
 
 def cover_part(ctx: Ctx, quick: bool) -> None:
@@ -228,6 +282,7 @@ def run(ctx: Ctx) -> None:
         f"n <= {4 if quick else 5} and a seeded {'third of 5' if quick else 'twelfth of 6'}; the real calculate_logic_gates "
         f"on the full outcome family of each, under interpreter hash seeds {seeds}. non-trivial: depth >= 2"
     )
+    post_part(ctx, items, seeds)
     # batches per hash seed
     reqs, meta = [], []
     B = 40
